@@ -111,7 +111,39 @@ const prop_def prop_C05 = { "C05", NULL, c05_run, qprog_counter_names,
 	"non-trivial: >=2 items completed with a pre-emption/stall inside a queue's atomics; distinct = distinct schedule signatures among those (sync_calls counts the synchronous submissions judged)" };
 
 /* ---- C06: inactive and suspended queues ---- */
+/* mini-scenario (round 11, C06k): the suspend count that dispatch_set_target_queue takes on an idle active queue for
+ * the time of its inline mutator must come back off exactly, also when another thread suspends/resumes meanwhile */
+static struct { dispatch_queue_t q, t[2]; int rounds_a, rounds_b, ran, flushed; } RR;
+static void *rr_mover(void *arg) { (void)arg;
+	for (int k = 0; k < RR.rounds_a; k++) {
+		dispatch_set_target_queue(RR.q, RR.t[k & 1]); sim_point();
+		dispatch_sync(RR.q, ^{ RR.flushed++; });   // behind the change
+	}
+	return NULL; }
+static void *rr_suspender(void *arg) { (void)arg;
+	for (int k = 0; k < RR.rounds_b; k++) { dispatch_suspend(RR.q); sim_point(); dispatch_resume(RR.q); sim_point(); }
+	return NULL; }
+static bool rr_ran(void *c) { (void)c; return RR.ran != 0; }
+static void c06_retarget_race(void) {
+	memset(&RR, 0, sizeof RR);
+	int conc = (int)g_n(2); RR.rounds_a = g_range(1, 5); RR.rounds_b = g_range(1, 6);
+	h_sample("an idle active %s queue moved between two serial targets %d time(s) (each followed by a dispatch_sync) while another thread suspends and resumes it %d time(s); then one item\n", conc ? "concurrent" : "serial", RR.rounds_a, RR.rounds_b);
+	h_announce();
+	RR.q = dispatch_queue_create("c06-moved", conc ? DISPATCH_QUEUE_CONCURRENT : NULL);
+	RR.t[0] = dispatch_queue_create("c06-t0", NULL); RR.t[1] = dispatch_queue_create("c06-t1", NULL);
+	sim_thread *th[2] = { sim_spawn(rr_mover, NULL, "c06-mover"), sim_spawn(rr_suspender, NULL, "c06-suspender") };
+	if (h_end_fault_phase(th, 2, 5 * NSEC)) {
+		// the mover may legitimately still be parked behind a suspension only while the suspender is at work
+	}
+	dispatch_async(RR.q, ^{ RR.ran++; h_progress(); });
+	if (h_wait_until(rr_ran, NULL, LIVENESS_NS)) h_stuck("liveness", "an item submitted after every dispatch_suspend had been matched by a dispatch_resume never ran (the queue was moved with dispatch_set_target_queue meanwhile)");
+	h_settle(5 * MSEC);
+	if (RR.ran != 1) h_viol("exactly-once", "the item ran %d times", RR.ran);
+	RES.counters[0] = RR.rounds_a + RR.rounds_b;
+	RES.nontrivial = sim_st.watched_preempts > 0 || sim_st.fired[K_STALL] > 0;
+}
 static void c06_run(void) {
+	if (g_chance(1, 8)) { c06_retarget_race(); return; }
 	qgen g; qgen_defaults(&g);
 	g.oracles = O_SUSPEND | O_ONCE | O_SERIAL | O_BARRIER;
 	g.opmask |= (1u << OP_SUSPEND) | (1u << OP_PAUSE);
